@@ -19,9 +19,24 @@ REPLAY = {"*": "c30.replay_process"}
 MAX_PATHS = 20000
 
 
+EXTRA_AXIOMS = specs.BLOCK_HASH_AXIOMS
+
+
 def setup(E):
+    sftp_server.declare_c32(E)          # _check_file's own contract (one response on every path, termination, hashes)
+    c32 = E.contracts[S + "_check_file"]
     sftp_server.declare_c30(E)
     sftp_server.declare_c30_helpers(E)
+    # verified against its own body with the C32 contract; used by _process through the responder contract
+    own = dict(c32, ghost=None)
+    own["raises"] = dict(c32["raises"], Exception="ghost('resp_count') == old(ghost('resp_count'))")
+    TARGETS.append((S + "_check_file", "own-body", own))
+    E.contract("paramiko.message.Message.get_list", requires={}, returns="tuple[str]", raises={"UnicodeDecodeError": "True"},
+               ensures=["0 <= self.packet.tell() and self.packet.tell() <= len(self.packet.getvalue())"],
+               modifies=["self.packet.pos"])
+    E.contract("paramiko.sftp_server.SFTPServer._send_status", params={"request_number": "int", "code": "int", "desc": "opt[str]"},
+               returns="none", ghost={"resp_count": "ghost('resp_count') + 1", "resp_type": "101", "resp_id": "request_number"},
+               raises={"Exception": "True"}, modifies=[])
     E.contract("paramiko.sftp_attr.SFTPAttributes._pack", params={"msg": "obj:Message"}, returns="none",
                requires=["msg.packet.tell() == len(msg.packet.getvalue())"],
                # appends some encoding of the attributes (C33 says which); written definitionally to keep the buffer's shape
